@@ -20,7 +20,7 @@ def IsScalar (r : Nat) : Prop := r < 0xD800 ∨ (0xE000 ≤ r ∧ r < 0x110000)
 instance (r : Nat) : Decidable (IsScalar r) := by unfold IsScalar; infer_instance
 
 /-- `utf8.EncodeRune` / `utf8.AppendRune` on a scalar value. -/
-def encodeRune (r : Nat) : List Byte :=
+def encodeRune (r : Nat) : List Nat :=
   if r < 0x80 then [r]
   else if r < 0x800 then [0xC0 + r / 64, 0x80 + r % 64]
   else if r < 0x10000 then [0xE0 + r / 4096, 0x80 + r / 64 % 64, 0x80 + r % 64]
@@ -40,25 +40,25 @@ structure U where
 def U.look (u : U) : Rune := if u.inv then runeError else u.raw
 
 /-- The bytes of a unit. -/
-def U.bytes (u : U) : List Byte := if u.inv then [u.raw] else encodeRune u.raw
+def U.bytes (u : U) : List Nat := if u.inv then [u.raw] else encodeRune u.raw
 
 /-- The first unit of a non-empty byte list: `utf8.DecodeRune`, and the `size == 1` test of
     `Parser.readRune` (`r == unicode.ReplacementChar && size == 1` ⇒ the byte itself). -/
-def unit1 (bs : List Byte) : U :=
+def unit1 (bs : List Nat) : U :=
   if (decodeRune bs).1 = runeError ∧ (decodeRune bs).2 = 1 then ⟨bs.headD 0, true, 1⟩
   else ⟨(decodeRune bs).1, false, (decodeRune bs).2⟩
 
-def unitsF : Nat → List Byte → List U
+def unitsF : Nat → List Nat → List U
   | 0, _ => []
   | _, [] => []
   | f + 1, b :: t => unit1 (b :: t) :: unitsF f ((b :: t).drop (unit1 (b :: t)).sz)
 
 /-- All units of a byte stream, in order. -/
-def units (bs : List Byte) : List U := unitsF bs.length bs
+def units (bs : List Nat) : List U := unitsF bs.length bs
 
 /-- The runes of a byte stream as `readRune` delivers them one by one: every well-formed scalar,
     every other byte as itself. -/
-def decodeRunes (bs : List Byte) : List Rune := (units bs).map U.raw
+def decodeRunes (bs : List Nat) : List Rune := (units bs).map U.raw
 
 /-- Byte length of a list of units. -/
 def ulen (us : List U) : Nat := (us.map U.sz).sum
@@ -105,5 +105,32 @@ def absRun : List U → Nat
 def Respects (cl : Nat → Nat) : Nat → List U → Prop
   | _, [] => True
   | pos, u :: us => cl pos ≤ 1 + absRun us ∧ Respects cl (pos + u.sz) us
+
+
+instance Respects.dec (cl : Nat → Nat) : ∀ pos us, Decidable (Respects cl pos us)
+  | _, [] => isTrue trivial
+  | pos, u :: us =>
+    match Nat.decLe (cl pos) (1 + absRun us), Respects.dec cl (pos + u.sz) us with
+    | isTrue h1, isTrue h2 => isTrue ⟨h1, h2⟩
+    | isFalse h1, _ => isFalse fun h => h1 h.1
+    | _, isFalse h2 => isFalse fun h => h2 h.2
+
+/-- Reads given as bytes (`UInt8`) — what `io.Reader.Read` returns — as the model's byte lists. -/
+def natChunks (chunks : List (List UInt8)) : List (List Nat) := chunks.map (·.map UInt8.toNat)
+
+/-- The whole stream of a list of reads. -/
+def streamOf (chunks : List (List UInt8)) : List Nat := (natChunks chunks).flatten
+
+/-- Blocks of units as delivered Prints: every block is non-empty, never longer than the oracle's
+    cluster at its byte offset, and shorter only if it ends at a read boundary (`cut` holds of the
+    byte offset where it ends). -/
+def BlocksOk (cl : Nat → Nat) (cut : Nat → Prop) : Nat → List (List U) → Prop
+  | _, [] => True
+  | pos, b :: rest =>
+    b ≠ [] ∧ b.length ≤ max 1 (cl pos) ∧ (b.length = max 1 (cl pos) ∨ cut (pos + ulen b)) ∧
+    BlocksOk cl cut (pos + ulen b) rest
+
+/-- Byte offset `n` is a read boundary of `chunks` (or the end of the stream). -/
+def IsCut (chunks : List (List Nat)) (n : Nat) : Prop := ∃ k, n = ((chunks.take k).flatten).length
 
 end VaxisModel.Model.ParserUtf8
